@@ -26,3 +26,21 @@ Definition cmp_select (des : bool) (rows : list ((Z * Z) * (Z * Z) * bool)) (oc 
   match sel with
   | [] => (1, b2z (oc =? 1))
   | _ => (0, b2z ((oc =? 0) && eq_all (map fst sel) (map (fun u => q (fst u)) used) && eq_all (map snd sel) (map (fun u => q (snd u)) used))) end.
+(* bounds / start vector handed to the optimiser vs the dictionaries the user wrote (in the user's key order): the model builds the vectors
+   BY NAME in param_names order. guess = None: the implementation did not get as far as a start vector (only the bounds path is compared) *)
+Definition qb (b : (Z * Z) * (Z * Z)) : Q * Q := (q (fst b), q (snd b)).
+Definition cmp_named (names : list String.string) (defaults : list ((Z * Z) * (Z * Z))) (user : list (String.string * ((Z * Z) * (Z * Z))))
+    (guess : option (list (String.string * (Z * Z)))) (oc : Z) (lo hi x0 : list (Z * Z)) : Z * Z :=
+  let r := bind (bounds_in_force QNum names (map qb defaults) (map (fun kv => (fst kv, qb (snd kv))) user)) (fun d =>
+           bind (match guess with None => Ok [] | Some g => by_name names (map (fun kv => (fst kv, q (snd kv))) g) end) (fun g =>
+           bind (by_name names d) (fun bs => Ok (g, bs)))) in
+  match r with
+  | Ok (g, bs) => (0, b2z (eq_all (map fst bs) (map q lo) && eq_all (map snd bs) (map q hi)
+                           && match guess with None => true | Some _ => eq_all g (map q x0) end))
+  | Err e => (exn_code e, b2z (oc =? exn_code e)) end.
+(* reported error from the rows handed to the optimiser (any order): range = max - min computed by the model; the reported value must be
+   non-negative and its square equal to the model's rmse^2 *)
+Definition cmp_rmse_data (calc_loading : bool) (data : list ((Z * Z) * (Z * Z))) (fun_ : list (Z * Z)) (rmse_impl : Z * Z) : Z * Z :=
+  let d := map (fun r => (q (fst r), q (snd r))) data in
+  (0, b2z (Qle_bool 0 (q rmse_impl)
+           && close_q 1 1000000000 (reported_rmse_sq QNum calc_loading d (map q fun_)) (q rmse_impl * q rmse_impl))).
